@@ -186,3 +186,33 @@ func GenFloat(t *rapid.T, is32 bool, bounds []float64, allowNaN bool) float64 {
 	}
 	return f
 }
+
+// PadInts repeats vs cyclically up to n elements (n <= len(vs): unchanged copy).
+// Numeric cases use it to embed their values in a long buffer, so that code
+// paths gated on the buffer length (lookup tables, block/SIMD kernels) are
+// reached with the same values.
+func PadInts(vs []int64, n int) []int64 {
+	out := append([]int64(nil), vs...)
+	for i := 0; len(out) < n && len(vs) > 0; i++ {
+		out = append(out, vs[i%len(vs)])
+	}
+	return out
+}
+
+// PadFloats is PadInts for float64 values.
+func PadFloats(vs []float64, n int) []float64 {
+	out := append([]float64(nil), vs...)
+	for i := 0; len(out) < n && len(vs) > 0; i++ {
+		out = append(out, vs[i%len(vs)])
+	}
+	return out
+}
+
+// GenPad draws a padded buffer length: mostly 0 (no padding), otherwise a
+// length around typical block thresholds.
+func GenPad(t *rapid.T) int {
+	if rapid.IntRange(0, 3).Draw(t, "padSel") != 0 {
+		return 0
+	}
+	return rapid.SampledFrom([]int{63, 64, 65, 255, 256, 257, 1023, 1024, 1025, 2048, 4096, 4097, 10000}).Draw(t, "pad")
+}
